@@ -258,6 +258,212 @@ def _comp_roundtrip(se, h, tuples, pod):
     return res
 
 
+# ----------------------------------------------------------------------------------------
+# parametric ranges
+# ----------------------------------------------------------------------------------------
+
+def _f32(x: float) -> float:
+    try:
+        return struct.unpack("<f", struct.pack("<f", x))[0]
+    except OverflowError:
+        return math.inf
+
+
+def _tok(x: float) -> str:
+    f = Fraction(x)
+    return "%d/%d" % (f.numerator, f.denominator)
+
+
+def param_ranges(rng, quick: bool):
+    """The sweep of run-time ranges.  Every bound is a Python float (what the code is handed); the
+    specification gets its exact value.  Domain rule: finite bounds, lo <= hi, |bounds| <= 1e150, a
+    non-degenerate range is at least 2^-149 wide, and its width is representable: lo + (hi - lo) == hi in double
+    arithmetic (true of every lo = 0 and every symmetric range, and of every fixed range in the code base).
+    Ranges outside that rule (e.g. [-1e-06, 2e-06], whose top raw decodes to 2.0000000000000003e-06 on the
+    pinned tree) are outside the property's stated domain (fixed template ranges + key-frame times [0, duration]);
+    VERIF_C10_WIDE=1 adds them anyway."""
+    pairs = []
+    for k in range(1, 121):                      # (i) every half second up to a minute
+        pairs.append((0.0, k * 0.5))
+    for hi in (7.0, 13.0, 31.0, 59.0, 0.1, 0.3, 1.0 / 3.0, 29.97, 59.94, 2.718281828, 3.3, 12.34, 47.11, 0.7, 1.1,
+               _f32(0.1), _f32(29.97), _f32(1.0 / 3.0), _f32(47.11)):
+        pairs.append((0.0, hi))
+    for hi in (1e-6, 1e-7, 5e-7, 9.5e-7, 1.5e-6, _f32(1e-6), _f32(1e-7), 2.0 ** -20, 2.0 ** -30, 2.0 ** -60, 2.0 ** -100,
+               2.0 ** -126, 2.0 ** -149, 3e-39):   # (ii) tiny
+        pairs.append((0.0, hi))
+    for hi in (86400.0, 1e6, 2.0 ** 24 + 1, 1e12, _f32(1e30), 3.4028234663852886e38, 1e150):   # (iii) huge
+        pairs.append((0.0, hi))
+    pairs += [(1.0, 17.5), (-3.0, 5.0), (-128.0, 384.0), (-256.0, 4096.0), (0.1, 0.3), (-0.5, 1.5), (100.0, 100.5),
+              (-16.5, 0.0), (1e6, 3e6), (-2.0 ** -20, 2.0 ** -19)]
+    if os.environ.get("VERIF_C10_WIDE"):
+        pairs += [(-1e-6, 2e-6), (0.1, 0.7), (1e-7, 3e-7)]
+    pairs += [(-h, h) for h in (1.0, 16.5, 57.0, 3.3, 1e-6, 1e-7, 0.1, 1e30, 64.0, 5.0)]
+    pairs += [(0.0, 0.0), (1.0, 1.0), (-2.5, -2.5), (16.5, 16.5), (1e-7, 1e-7)]   # (iv) degenerate
+    for _ in range(6 if quick else 60):
+        hi = _f32(math.exp(rng.uniform(math.log(1e-9), math.log(1e9))))
+        pairs.append((0.0, hi))
+        if rng.random() < 0.3:
+            pairs.append((-hi, hi))
+    out, seen = [], set()
+    for lo, hi in pairs:
+        if (lo, hi) in seen or (lo + (hi - lo) != hi and not os.environ.get("VERIF_C10_WIDE")):
+            continue
+        seen.add((lo, hi))
+        out.append({"id": "[%r,%r]" % (lo, hi), "lo": _tok(lo), "hi": _tok(hi), "sym": bool(lo == -hi and hi > 0),
+                    "lo0": bool(lo == 0.0), "_lo": lo, "_hi": hi, "_f32": lo == 0.0 and _f32(hi) == hi})
+    return out
+
+
+PARAM_FAMS = [
+    # TLC family record                                                           how the real code is reached
+    {"id": "time:U16", "kind": "time", "rawMin": 0, "rawMax": 65535, "zmAuto": False, "lo0only": True},
+    {"id": "qfloat:U16", "kind": "qfloat", "rawMin": 0, "rawMax": 65535, "zmAuto": True, "lo0only": False},
+    {"id": "qfloat:U8", "kind": "qfloat", "rawMin": 0, "rawMax": 255, "zmAuto": True, "lo0only": False},
+    {"id": "qfloat:S16", "kind": "qfloat", "rawMin": -32768, "rawMax": 32767, "zmAuto": True, "lo0only": False},
+    {"id": "numpy:U16", "kind": "numpy", "rawMin": 0, "rawMax": 65535, "zmAuto": False, "lo0only": False},
+]
+
+
+def _anim_bytes(duration: float, raws, rot=(1, 2, 3)):
+    """An animation file (version 1.0) with one joint whose rotation and position key-frames carry the
+    given raw times; written with Python's struct, not with the code under test."""
+    b = struct.pack("<HHif", 1, 0, 4, duration) + b"\x00" + struct.pack("<ffiffI", 0.0, 0.0, 0, 0.0, 0.0, 0)
+    b += struct.pack("<I", 1) + b"mPelvis\x00" + struct.pack("<i", 3)
+    b += struct.pack("<i", len(raws)) + b"".join(struct.pack("<HHHH", t, *rot) for t in raws)
+    b += struct.pack("<i", len(raws)) + b"".join(struct.pack("<HHHH", t, *rot) for t in raws)
+    b += struct.pack("<i", 0)
+    return b
+
+
+def _anim_times(b: bytes, n: int):
+    """-> (rotation key-frame raw times, position key-frame raw times) of a file laid out by _anim_bytes"""
+    off = 8 + 4 + 1 + 24 + 4 + 8 + 4
+    cnt = struct.unpack_from("<i", b, off)[0]
+    if cnt != n or len(b) != off + 4 + 8 * n + 4 + 8 * n + 4:
+        raise ValueError("animation re-serialised to an unexpected layout (%d bytes, %d key-frames)" % (len(b), cnt))
+    rot = [struct.unpack_from("<H", b, off + 4 + 8 * i)[0] for i in range(n)]
+    off2 = off + 4 + 8 * n
+    pos = [struct.unpack_from("<H", b, off2 + 4 + 8 * i)[0] for i in range(n)]
+    return rot, pos
+
+
+def _param_drivers(fam, rg, time_obj):
+    """-> list of (path name, decode_all(raws) -> floats, encode_all(floats) -> raws) reaching the real code."""
+    import numpy as np
+    import hippolyzer.lib.base.serialization as se
+    import hippolyzer.lib.base.llanim as llanim
+    lo, hi = rg["_lo"], rg["_hi"]
+    out = []
+    if fam["kind"] == "time":
+        ctx, root = _time_ctx(hi)
+        out.append(("QuantizedTime.decode/encode", lambda raws: [time_obj.decode(r, ctx) for r in raws],
+                    lambda xs, _k=root: [time_obj.encode(x, ctx) for x in xs]))
+        if rg["_f32"]:
+            def dec(raws):
+                a = llanim.Animation.from_bytes(_anim_bytes(hi, raws))
+                j = a.joints["mPelvis"]
+                r, p = [k.time for k in j.rot_keyframes], [k.time for k in j.pos_keyframes]
+                if len(r) != len(raws) or r != p or a.duration != hi:
+                    raise ValueError("rotation and position key-frame times / duration differ after parsing")
+                return r
+
+            def enc(xs):
+                a = llanim.Animation.from_bytes(_anim_bytes(hi, [0] * len(xs)))
+                j = a.joints["mPelvis"]
+                for k, kp, x in zip(j.rot_keyframes, j.pos_keyframes, xs):
+                    k.time = x
+                    kp.time = x
+                r, p = _anim_times(bytes(a.to_bytes()), len(xs))
+                if r != p:
+                    raise ValueError("rotation and position key-frame times re-serialise differently")
+                return r
+            out.append(("Animation.from_bytes/to_bytes", dec, enc))
+    elif fam["kind"] == "qfloat":
+        prim = {(0, 65535): se.U16, (0, 255): se.U8, (-32768, 32767): se.S16}[(fam["rawMin"], fam["rawMax"])]
+        q = se.QuantizedFloat(prim, lo, hi)
+        out.append(("QuantizedFloat(prim, lo, hi)", lambda raws: [q.decode(r, None) for r in raws],
+                    lambda xs: [q.encode(x, None) for x in xs]))
+    else:
+        q = se.QuantizedNumPyArray(se.NumPyArray(se.BytesGreedy(), np.dtype("<u2"), 1), lo, hi)
+        out.append(("QuantizedNumPyArray(lo, hi)",
+                    lambda raws: [float(v) for v in np.asarray(q.decode(np.array(raws, dtype=np.dtype("<u2")), None)).reshape(-1)],
+                    lambda xs: [int(v) for v in np.asarray(q.encode(np.array(xs, dtype=np.float64), None)).reshape(-1)]))
+    return out
+
+
+_PJOBS = None
+
+
+def _param_job(ji):
+    fam, rg, rows, time_obj = _PJOBS[ji]
+    bad, n = [], 0
+    lo, hi = Fraction(rg["_lo"]), Fraction(rg["_hi"])
+    sym = rows[0]["sym"]
+    off, scale = (Fraction(0), hi) if sym else (lo, hi - lo)
+
+    def exact(num, den):
+        return off + scale * Fraction(num, den)
+    raws = [r["raw"] for r in rows]
+    st, drivers = impl_call(_param_drivers, fam, rg, time_obj)
+    if st != "ok":
+        return ji, 0, [("construct-raise", "constructor", raws[0], drivers)]
+    for path, dec, enc in drivers:
+        st, xs = impl_call(dec, raws)
+        if st != "ok" or len(xs) != len(rows):
+            bad.append(("decode-raise", path, raws[0], xs))
+            continue
+        if any(not isinstance(x, float) or x != x or x in (math.inf, -math.inf) for x in xs):
+            bad.append(("decode-not-finite-float", path, raws[0], repr(xs[:4])))
+            continue
+        st, back = impl_call(enc, xs)
+        if st != "ok" or len(back) != len(rows):
+            bad.append(("encode-raise", path, raws[0], back))
+            continue
+        prev = None
+        for row, x, y in zip(rows, xs, back):
+            n += 1
+            raw = row["raw"]
+            if row["deg"]:
+                if x != rg["_lo"]:
+                    bad.append(("degenerate-decode", path, raw, {"decoded": x, "lo": rg["_lo"]}))
+            else:
+                want = exact(row["val"], row["D"])
+                step = scale * Fraction(2 if sym else 1, row["D"])
+                if abs(Fraction(x) - want) * 4 > step:
+                    bad.append(("grid", path, raw, {"decoded": x, "exact": float(want)}))
+                if row["end"] == "lo" and x != rg["_lo"]:
+                    bad.append(("end-decode", path, raw, {"decoded": x, "declared": rg["_lo"]}))
+                if row["end"] == "hi" and x != rg["_hi"]:
+                    bad.append(("end-decode", path, raw, {"decoded": x, "declared": rg["_hi"]}))
+                if row["zero"] and x != 0.0:
+                    bad.append(("zero-decode", path, raw, {"decoded": x}))
+                if prev is not None and not (prev <= x):
+                    bad.append(("monotone", path, raw, {"decoded": x, "previous": prev}))
+                prev = x
+            if isinstance(y, bool) or int(y) != y or int(y) != row["re"]:
+                bad.append(("roundtrip", path, raw, {"decoded": x, "re_encoded": y, "spec": row["re"]}))
+        # ends as literals, and the NEAREST probes
+        probes = []
+        for row in rows:
+            if row["deg"]:
+                if row["raw"] == raws[0]:
+                    probes.append((row, rg["_lo"], [row["re"]], "degenerate-encode"))
+                continue
+            if row["end"]:
+                probes.append((row, rg["_lo"] if row["end"] == "lo" else rg["_hi"], [row["re"]], "end-encode"))
+            for pr in row["near"]:
+                probes.append((row, float(exact(pr["n4"], 4 * row["D"])), pr["ok"], "nearest"))
+        st, got = impl_call(enc, [p[1] for p in probes])
+        if st != "ok" or len(got) != len(probes):
+            bad.append(("encode-raise", path, raws[0], got))
+            continue
+        for (row, v, ok, kind), y in zip(probes, got):
+            n += 1
+            if isinstance(y, bool) or int(y) != y or int(y) not in ok:
+                bad.append((kind, path, row["raw"], {"value": v, "encoded": y, "spec_allows": ok}))
+    return ji, n, bad
+
+
 _CJOBS = None
 
 
@@ -421,7 +627,17 @@ def _replay_job(ji):
 COMP_INVS = ["CompTypeOK", "CompRoundTrip"]
 
 
-def _tables(chk: Check, insts, shards: int, comps=()):
+def _cex(res):
+    """TLC's error and the violating state (the printed table rows in between are dropped)."""
+    out = "\n".join(l for l in res.out.splitlines() if not l.startswith('"{'))
+    i = out.find("Error:")
+    return out[i:i + 6000] if i >= 0 else ""
+
+
+PARAM_INVS = ["PTypeOK", "PRoundTrip", "PMonotone", "PEnds", "PZero", "PNearest"]
+
+
+def _tables(chk: Check, insts, shards: int, comps=(), ranges=()):
     """Run Quant_MBT (invariants on) over all instances; -> {id: rows in raw order}, {composite id: rows}."""
     small = [r for r, _ in insts if r["rawMax"] - r["rawMin"] < 256]
     big = [r for r, _ in insts if r["rawMax"] - r["rawMin"] >= 256]
@@ -430,6 +646,8 @@ def _tables(chk: Check, insts, shards: int, comps=()):
     groups = [small] + [g for g in common.chunked(big, shards) if g]
     if comps:
         groups.append("composites")
+    if ranges:
+        groups.append("parametric")
     import concurrent.futures as cf
 
     def one(arg):
@@ -437,28 +655,58 @@ def _tables(chk: Check, insts, shards: int, comps=()):
         d = os.path.join(chk.scratch, "q%d" % no)
         os.makedirs(d, exist_ok=True)
         composite = recs == "composites"
+        param = recs == "parametric"
+        with open(os.path.join(d, "fams.json"), "w") as f:
+            json.dump(PARAM_FAMS if param else [], f)
+        with open(os.path.join(d, "ranges.json"), "w") as f:
+            json.dump([{k: v for k, v in r.items() if not k.startswith("_")} for r in ranges] if param else [], f)
         with open(os.path.join(d, "insts.json"), "w") as f:
-            json.dump([r for r, _ in insts] if composite else recs, f)
+            json.dump([r for r, _ in insts] if composite or param else recs, f)
         with open(os.path.join(d, "comps.json"), "w") as f:
             json.dump([c for c, _ in comps] if composite else [], f)
         cfg = os.path.join(d, "Quant_MBT.cfg")
         with open(cfg, "w") as f:
-            if composite:
+            if param:
+                f.write("SPECIFICATION MPSpec\n%s" % "".join("INVARIANT %s\n" % i for i in PARAM_INVS))
+            elif composite:
                 f.write("SPECIFICATION MCSpec\n%s" % "".join("INVARIANT %s\n" % i for i in COMP_INVS))
             else:
                 f.write("SPECIFICATION MSpec\n%sPROPERTY MonotoneStep\n" % "".join("INVARIANT %s\n" % i for i in INVS))
         return run_tlc(os.path.join(SPECS, "Quant_MBT.tla"), cfg, workers=1, scratch=d,
-                       env={"QUANT_INSTS": os.path.join(d, "insts.json"), "QUANT_COMPS": os.path.join(d, "comps.json")}, heap="3g")
+                       env={"QUANT_INSTS": os.path.join(d, "insts.json"), "QUANT_COMPS": os.path.join(d, "comps.json"),
+                            "QUANT_FAMS": os.path.join(d, "fams.json"), "QUANT_RANGES": os.path.join(d, "ranges.json")}, heap="3g")
     with cf.ThreadPoolExecutor(max_workers=len(groups)) as ex:
         results = list(ex.map(one, enumerate(groups)))
     tables = {}
     ctables = {}
+    ptables = {}
+    if ranges:
+        groups.pop()
+        res = results.pop()
+        chk.add_tlc(res, "Quant %d families x %d ranges" % (len(PARAM_FAMS), len(ranges)))
+        if not res.ok:
+            cex = _cex(res)
+            mf, mr = re.findall(r"/\\ pf = (\d+)", cex), re.findall(r"/\\ pr = (\d+)", cex)
+            fid = PARAM_FAMS[int(mf[-1]) - 1]["id"] if mf and 0 < int(mf[-1]) <= len(PARAM_FAMS) else "?"
+            rid = ranges[int(mr[-1]) - 1]["id"] if mr and 0 < int(mr[-1]) <= len(ranges) else "?"
+            chk.violation("model: %s violated for family %s on range %s" % (",".join(res.violated) or "error", fid, rid),
+                          {"kind": "model", "violated": res.violated, "family": fid, "range": rid}, {"tlc": cex})
+        else:
+            for line in res.out.splitlines():
+                if line.startswith('"{'):
+                    row = json.loads(json.loads(line))["prow"]
+                    ptables.setdefault((row["f"], row["rg"]), []).append(row)
+            for rows in ptables.values():
+                rows.sort(key=lambda r: r["raw"])
+            want = sum(1 for f in PARAM_FAMS for r in ranges if r["lo0"] or not f["lo0only"])
+            if len(ptables) != want:
+                raise MachineryError("parametric table has %d (family, range) pairs, expected %d" % (len(ptables), want))
     if comps:
         groups.pop()
         res = results.pop()
         chk.add_tlc(res, "Quant %d composite(s)" % len(comps))
         if not res.ok:
-            cex = res.counterexample()
+            cex = _cex(res)
             mi = re.findall(r"/\\ ci = (\d+)", cex)
             cid = comps[int(mi[-1]) - 1][0]["id"] if mi and int(mi[-1]) <= len(comps) else "?"
             chk.violation("model: %s violated for composite %s" % (",".join(res.violated) or "error", cid),
@@ -477,7 +725,7 @@ def _tables(chk: Check, insts, shards: int, comps=()):
         chk.add_tlc(res, "Quant %d instance(s)" % len(recs))
         if not res.ok:
             # TLC stops at the first state that breaks a clause: name the instance and the raw
-            cex = res.counterexample()
+            cex = _cex(res)
             mi, mr = re.findall(r"/\\ inst = (\d+)", cex), re.findall(r"/\\ raw = (-?\d+)", cex)
             iid = recs[int(mi[-1]) - 1]["id"] if mi and int(mi[-1]) <= len(recs) else "?"
             chk.violation("model: %s violated for %s at raw %s" % (",".join(res.violated) or "error", iid, mr[-1] if mr else "?"),
@@ -498,7 +746,7 @@ def _tables(chk: Check, insts, shards: int, comps=()):
         exp = r["rawMax"] - r["rawMin"] + 1
         if rows[0]["raw"] != r["rawMin"] or rows[-1]["raw"] != r["rawMax"] or len(rows) != exp:
             raise MachineryError("table of %s is incomplete (%d rows)" % (r["id"], len(rows)))
-    return tables, ctables
+    return tables, ctables, ptables
 
 
 def _durations(chk: Check, quick: bool):
@@ -525,6 +773,8 @@ def run(chk: Check):
         "QuantizedNumPyArray documents 'no zero midpoint rounding': the zero clause is not demanded of the vectorised variant",
         "key-frame times: durations are positive finite float32 values (2^-8..2^12 and random); duration 0 is outside the domain",
         "the upper end of a declared range is constrained only when it lies on the raw grid (it does not for PackedTERotation and FixedPoint)",
+        "parametric ranges: finite bounds, |bound| <= 1e150, non-degenerate ranges at least 2^-149 wide; a degenerate range (lo = hi) only has to "
+        "decode every raw to lo and encode lo to the lowest raw; NEAREST probes are a quarter step (one admissible raw) and a half step (two) off the grid",
         "composites (quantised vectors, packed quaternions, vector lists) are driven through their byte form with ctx None, little-endian; "
         "every raw tuple must come back unchanged, also for 3-component packed quaternions whose decoded X/Y/Z is longer than 1 (W is not on the wire)",
     ]
@@ -534,7 +784,9 @@ def run(chk: Check):
     for c, h in comps:
         c["extra"] = sorted({tuple(chk.rng.randrange(r["rawMin"], r["rawMax"] + 1) for r in h["recs"]) for _ in range(n_extra)})
     chk.cov["composites"] = [dict(id=c["id"], objects=h["n_objects"]) for c, h in comps]
-    tables, ctables = _tables(chk, insts, shards=8, comps=comps)
+    ranges = param_ranges(chk.rng, quick)
+    chk.cov["parametric_ranges"] = [r["id"] for r in ranges]
+    tables, ctables, ptables = _tables(chk, insts, shards=8, comps=comps, ranges=ranges)
     durs = _durations(chk, quick)
     jobs = []
     for rec, h in insts:
@@ -591,6 +843,29 @@ def run(chk: Check):
                            "failing_tuples_of_this_kind": sum(1 for b in bad if b[0] == kind)})
     total_rows += crows
     chk.cov["composite_rows_replayed"] = crows
+    # parametric ranges: the real context-dependent quantiser (directly and through the animation serializer)
+    # and directly constructed instances, on every range of the sweep
+    global _PJOBS
+    time_obj = next(h["obj"] for r, h in insts if r["kind"] == "time")
+    fam_by_id = {f["id"]: f for f in PARAM_FAMS}
+    rng_by_id = {r["id"]: r for r in ranges}
+    _PJOBS = [(fam_by_id[f], rng_by_id[rg], rows, time_obj) for (f, rg), rows in sorted(ptables.items())]
+    prows = 0
+    for ji, n, bad in common.parallel_map(_param_job, list(range(len(_PJOBS)))):
+        fam, rg, rows, _ = _PJOBS[ji]
+        chk.count(n)
+        prows += len(rows)
+        chk.nontrivial(("param", fam["id"], rg["id"]))
+        per_kind = {}
+        for kind, path, raw, detail in bad:
+            per_kind[(kind, path)] = per_kind.get((kind, path), 0) + 1
+            if per_kind[(kind, path)] > 3:
+                continue
+            chk.violation("%s on range %s via %s: %s at raw %s" % (fam["id"], rg["id"], path, kind, raw),
+                          {"kind": kind, "family": fam["id"], "range": rg["id"], "path": path, "raw": raw},
+                          {"lo": rg["_lo"], "hi": rg["_hi"], "observed": detail})
+    total_rows += prows
+    chk.cov["parametric_rows_replayed"] = prows
     chk.cov["traces_validated_against_impl"] += total_rows
     chk.cov["rows_replayed"] = total_rows
     chk.cov["durations"] = durs
